@@ -1,7 +1,7 @@
 (** Extraction of the executable models to OCaml (oracle for the
     correspondence checks).  ExtrOcamlBasic only; N/positive/nat stay the
     extracted inductive types. *)
-From XZ Require Import Base Crc Sha256 Bcj BcjInst CodeWrap C11Lemmas Lzma Lzma2 Xz Formats IndexModel XzNames.
+From XZ Require Import Base Crc Sha256 Bcj BcjInst CodeWrap C11Lemmas Lzma Lzma2 Xz Formats IndexModel XzNames Outq.
 Require Extraction.
 Require Import ExtrOcamlBasic.
 Extraction Language OCaml.
@@ -16,4 +16,5 @@ Extraction "xzmodel"
   IndexModel.block_count IndexModel.stream_count IndexModel.m_index_size IndexModel.stream_size IndexModel.total_size
   IndexModel.file_size IndexModel.uncompressed_size IndexModel.checks IndexModel.all_blocks IndexModel.nonempty_blocks
   IndexModel.locate IndexModel.index_encode
-  XzNames.compressed_name XzNames.uncompressed_name XzNames.dest_mode XzNames.final_status.
+  XzNames.compressed_name XzNames.uncompressed_name XzNames.dest_mode XzNames.final_status
+  Outq.run Outq.step Outq.outq0.
